@@ -317,3 +317,28 @@ PROPS = {
         engine="cluster-simulator",
     ),
 }
+
+# Legs added in build rounds 3 and 4 (appended to the rule text of each property; DESIGN section 13 says
+# which seeded change each one answers).
+EXTRA_RULES = {
+    "C01": "Also: (rrs) plaintext state exchanges with port-less entries through the real readRemoteState against the msgpack model and its port normalisation; (probe) an unanswered probe of incarnation N while a newer alive (N+1) is accepted - the verdict must not override it.",
+    "C02": "Also: (gossip) accusations against the node interleaved with equal-length gossip, queue never reset, everything drained: the alive carrying the final incarnation must have been handed out; (stir) gossip / push-pull / probe ticks on three goroutines at once, afterwards every member listed exactly once.",
+    "C03": "Also: (hist) node-level histories around one member's suspicion (stale and current dead claims, refutations, timer expiry) judged by the timer model; crash modes: silent, hung (socket open), unreachable (sends refused), address taken over; optional membership writer at every send.",
+    "C04": "Also: (udp) a burst of K alive messages over the stock UDP transport while the node is busy - exactly those K members afterwards; (lockstir) membership updates against broadcast retrieval and the query API in tight loops, every goroutine must come back; healthy clusters with keys (both encryption formats, padded names) and slow transport returns.",
+    "C05": "Also: (lockstir) as for C04; (scale) pushPullScale against its integer model over whole ranges; address take-over by a new name without a gap.",
+    "C06": "Also: (scale) suspicionTimeout against its integer model.",
+    "C07": "Also: (poll) Members() polled while claims arrive on other goroutines - every result equals the event replay at some moment of the call; (chan) the package's ChannelEventDelegate read late - every event carries the data of its moment; application metadata changed without UpdateNode before self-accusations.",
+    "C08": "Also: leave simulator with user broadcasts pending and with an application that has one for every packet.",
+    "C09": "Also: (ppf) the plaintext stream a real node writes for a Join parsed and re-encoded by the msgpack model; (rrs) as for C01; (busy) a join against a host serving 125-127 stalled exchanges: success must be mutual.",
+    "C10": "Also: (scale) retransmitLimit against its integer model over whole ranges.",
+    "C13": "Also: sealed-length declarations above the cap on a keyed node (bytes taken off the connection counted); (nacks) more nacks for an in-flight probe than its channel holds, with watchdogs on the packet path, the probe and Shutdown; degenerate compression envelopes.",
+    "C14": "Also: sources with unsealed compressed frames, keys removed mid-stream, and a foreign label header on a skip-inbound receiver.",
+    "C15": "Also: user messages of random lengths on both paths in every case; rotation histories with repeated and absent keys; (race) old-key traffic read on some goroutines while others send - everything sealed under the primary key.",
+    "C16": "Also: the sender may delegate its own inbound check; (alias) transports that keep the slices they are handed: a packet must not change after WriteTo returned.",
+    "C17": "Also: rotation on running nodes (keyring, SecretKey, or both with the application's own handle) judged on real packets and streams and on the key that seals them; (conc) two keyring calls at once over thousands of rounds, results and final ring matched against both sequential orders of the model.",
+    "C18": "Also: allow-lists in both in-memory forms; (transport) the stock NetTransport ingestion entry; (parse) ParseCIDRs on lists with malformed entries against net.ParseCIDR; (full) an alive from outside while the handoff queue is full of allowed gossip.",
+    "C19": "Also: (senderr) pings refused by the transport (local / remote error); (fresh) 8-16 goroutines drawing sequence numbers; (ping) the Ping API over interval/timeout combinations against pingAnswered; (tbl) pending-table scripts.",
+    "C20": "Also: (selfdenied) nodes whose configuration refuses their own address, before and after Leave and Shutdown; (lockstir) as for C04; hung and stalled (never reading) peers.",
+}
+for _p, _t in EXTRA_RULES.items():
+    PROPS[_p]["rule"] = PROPS[_p]["rule"] + " " + _t
